@@ -52,7 +52,7 @@ func (r *volatileTaskRepo) GetById(ctx context.Context, id string) (def.Task, er
 	if !ok {
 		return def.Task{}, &def.RepositoryError{Id: id, Kind: def.IdNotFound}
 	}
-	return task, nil
+	return task.Clone(), nil
 }
 func (r *volatileTaskRepo) GetNext(ctx context.Context) (def.Task, error) {
 	r.mu.Lock()
